@@ -250,10 +250,60 @@ def run(chk, repo):
         nh += 1
     chk.floor("C05.hash", nh, 2, "__hash__ methods")
 
-    # eq compares both polynomials
+    # equality is structural on what the hash reads
+    chk.rule("C05.eq-structural", "on every path on which LinearFilter.__eq__ can return True, the guards taken and the "
+                                  "returned conjunction imply self.A == other.A for every polynomial A that __hash__ "
+                                  "reads (numpoly, denpoly): equal filters have equal hashed state")
     eq = repo.find(LF, "LinearFilter.__eq__")
+    from .. import e4 as _e4
+
+    def _eqs(expr, positive=True):
+        out = set()
+        if isinstance(expr, ast.BoolOp) and isinstance(expr.op, ast.And) and positive:
+            for v in expr.values:
+                out |= _eqs(v, True)
+        elif isinstance(expr, ast.Compare) and len(expr.ops) == 1 and isinstance(expr.ops[0], ast.Eq) and positive:
+            l, r = unparse(expr.left), unparse(expr.comparators[0])
+            for a in ("numpoly", "denpoly"):
+                if {l, r} == {"self." + a, "other." + a}:
+                    out.add(a)
+        return out
+    npaths = 0
+    for path in _e4.simple_paths(docstring_free(eq.body)):
+        rets = [s_ for s_ in path if isinstance(s_, ast.Return)]
+        if not rets:
+            continue
+        r = rets[0]
+        if isinstance(r.value, ast.Constant) and r.value.value is False:
+            continue
+        npaths += 1
+        implied = _eqs(r.value)
+        # conditions along the path: ('test', expr) entries are followed by the branch taken; recover polarity
+        conds = []
+        stmts = docstring_free(eq.body)
+
+        def polar(stmts_, target):
+            for st in stmts_:
+                if isinstance(st, ast.If):
+                    if any(target is x for b in st.body for x in ast.walk(b)):
+                        return [(st.test, True)] + polar(st.body, target)
+                    if any(target is x for b in st.orelse for x in ast.walk(b)):
+                        return [(st.test, False)] + polar(st.orelse, target)
+                    # target after this if (fall-through): the if's body must have returned, i.e. test was false
+                    if all(isinstance(b[-1], (ast.Return, ast.Raise)) for b in [st.body] if b) and not st.orelse:
+                        conds.append((st.test, False))
+            return []
+        for t, pol in polar(stmts, r):
+            if pol:
+                implied |= _eqs(t)
+        chk.decide({"numpoly", "denpoly"} <= implied, "C05.eq-structural", W("LinearFilter.__eq__"),
+                   "path returning %s implies equality of %s" % (short(r.value, 70), sorted(implied)),
+                   why="filters can compare equal without having equal numerator and denominator polynomials, while "
+                       "__hash__ hashes exactly those: equal filters hash differently", node=r)
+    chk.floor("C05.eq-structural", npaths, 1, "paths of __eq__ that can return True")
     g = boolskel.guarded_returns(eq)
-    chk.require(g is not None and len(g) >= 1, "LinearFilter.__eq__ shape not recognised")
+    if g is None or len(g) < 1:
+        raise AnalysisError("LinearFilter.__eq__ shape not recognised")
     txt = unparse(g[0][1])
     need = ["self.numpoly == other.numpoly", "self.denpoly == other.denpoly"]
     good = isinstance(g[0][1], ast.BoolOp) and isinstance(g[0][1].op, ast.And) and \
